@@ -1,4 +1,5 @@
 import SakuraVerif.Model.Tie
+import SakuraVerif.Gen.Tables
 import SakuraVerif.Lemmas.ExecTie
 import SakuraVerif.Lemmas.ExecRestLike
 /-! # C13 — ties and slurs join notes as documented
@@ -17,6 +18,13 @@ Theorems, for any group (any number of notes, pitches, lengths, gates):
 * no mode writes more notes than the group has (no note is sounded twice). -/
 namespace Sakura.Props.C13
 open Sakura Sakura.Tie
+
+/-- the documented names of the four modes are the numbers `flush` dispatches on (`Slur(SLUR_ALPE)` is `Slur(3)` …): read from the table of
+    built-in variables regenerated from the source -/
+theorem C13_mode_names :
+    ([("SLUR_PORT", (0 : Int)), ("SLUR_BEND", 1), ("SLUR_GATE", 2), ("SLUR_ALPE", 3)].all
+      (fun p => (Gen.variables.filter (fun r => r.name == p.1.toList.map Char.toNat)).map (fun r => (r.kind, r.i)) == [(0, p.2)])) = true := by
+  decide +kernel
 
 def isNote (e : Event) : Bool := e.kind == .noteOn
 
